@@ -1,11 +1,6 @@
-"""Per-property configuration of ./check (what to build, what is trusted, how cases are counted)."""
+from checks import AXIOMS, TRANSLATOR, CORR
 
-AXIOMS = "Lean 4.33.0 kernel; axioms allowed in any property theorem: propext, Classical.choice, Quot.sound (audited on every run with collectAxioms; no native_decide, no bv_decide, no sorry)"
-TRANSLATOR = "harness/gotolean + harness/cmd/facts (Go source -> Lean defs in lean/Canopy/Gen, regenerated on every run; cross-checked by the correspondence run)"
-CORR = "correspondence harness (harness/cmd/drive runs the real code built with -tags verif; lean/Driver runs the model on the same op lines; outputs compared line by line)"
-
-PROPS = {
-    "C19": dict(
+CONFIG = dict(
         lean_modules=["Canopy.Props.C19"],
         driver=True,
         level="proof",
@@ -18,12 +13,4 @@ PROPS = {
         level_text="Machine-checked theorems (injectivity, prefix-range exactness) about the Lean definitions regenerated from fsm/key.go and store/indexer.go on every run; the generated definitions and the hand model of JoinLenPrefix/DecodeLengthPrefixed are additionally run against the real functions on thousands of boundary-heavy inputs.",
         level_note="Trusts Lean's kernel, the ~500-line translator (cross-checked by the differential run), and the hypothesis that key components are non-nil and <= 255 bytes (shown necessary by a witness). Sign-bytes and decoder clauses: see evidence.",
         explanation="(a) store keys: generated builders + proofs of injectivity/prefix-range; (b) sign bytes and (c) decoding are added by later stages and listed in `theorems` when present.",
-    ),
-}
-
-HOOK_COMMITS = ["8f1db09"]
-
-_PENDING = "no check registered in this commit yet (machinery under construction; see DESIGN.md §12)"
-NOT_APPLICABLE = {p: _PENDING for p in
-                  ["C01", "C02", "C03", "C04", "C05", "C06", "C07", "C08", "C09", "C10", "C11", "C12", "C13",
-                   "C14", "C15", "C16", "C17", "C18", "C20"]}
+    )
